@@ -1,10 +1,72 @@
 package c07
 
 import (
+	"encoding/json"
+	"fmt"
+	"strings"
 	"testing"
 
+	ck "verifharness/chainkit"
 	"verifharness/vt"
 )
 
 func TestProp(t *testing.T)   { vt.RunAll(t, 1500) }
 func TestReplay(t *testing.T) { vt.ReplayAll(t) }
+
+func first(err error) string {
+	msg := err.Error()
+	if i := strings.IndexByte(msg, '\n'); i >= 0 {
+		msg = msg[:i]
+	}
+	return msg
+}
+
+func guarded(f func() error) (err error) {
+	defer func() {
+		if r := recover(); r != nil {
+			err = fmt.Errorf("PANIC: %v", r)
+		}
+	}()
+	return f()
+}
+
+// knownNonCanonicalCase is the shrunk case found by `admission`: one signer, 1-byte script, the signer count
+// written as fd 01 00 instead of 01.
+const knownNonCanonicalCase = `{"chain":{"profile":"V1C1"},"history":null,"tx":{"signers":[{"kind":"sig"}],"script_kind":"blob","script_size":1,"sysfee":0,"nonce":0,"vub":0},"mutation":"none","pick":0,"enc":[{"pos":0,"form":0}]}`
+
+// TestKnownNonCanonical re-confirms the listed finding (TestProp skips non-minimal encodings while it is listed).
+func TestKnownNonCanonical(t *testing.T) {
+	if !vt.Known(KnownNonCanonical) {
+		t.Skip("finding not listed as known: TestProp submits non-minimal encodings itself")
+	}
+	var c AdmCase
+	if err := json.Unmarshal([]byte(knownNonCanonicalCase), &c); err != nil {
+		t.Fatal(err)
+	}
+	err := guarded(func() error { return checkAdm(c, &vt.Obs{}, true) })
+	if err == nil {
+		t.Log("fixed case no longer fails")
+		return
+	}
+	vt.KnownFinding(KnownNonCanonical, first(err))
+}
+
+// TestKnownSRIHSize re-confirms the listed finding about ApplyPolicyToTxSet on StateRootInHeader chains: it looks for
+// the first script size at which the last selected transaction fits the estimate but not the real block.
+func TestKnownSRIHSize(t *testing.T) {
+	if !vt.Known(KnownSRIHSize) {
+		t.Skip("finding not listed as known: TestProp checks the size limit on state-root chains itself")
+	}
+	for s := 240; s < 300; s++ {
+		c := PropCase{Chain: ck.ChainCfg{Profile: "V1C1", SRIH: true, MaxBlockSize: 1500}, TimeD: 1000}
+		for i := 0; i < 4; i++ {
+			c.Txs = append(c.Txs, PTx{Payer: i, CoSigner: -1, Conf: -1, ScriptSize: s, Nonce: uint32(i + 1)})
+		}
+		err := guarded(func() error { return checkProp(c, &vt.Obs{}, false, false) })
+		if err != nil {
+			vt.KnownFinding(KnownSRIHSize, fmt.Sprintf("4 transactions with %d-byte scripts: %s", s, first(err)))
+			return
+		}
+	}
+	t.Log("no script size in 240..299 reproduces the excess any more")
+}
